@@ -33,6 +33,15 @@ def plan(tier, seed):
             'nproc': 2, 'pool_soft': ps, 'job_soft': js, 'eff_soft': eff, 'dur': eff + 4.6,
             'catch': True, 'expired': True, 'pool_hard': None, 'job_hard': None,
             'next_dur': 0.3, 'next_soft': None, 'close_while_running': True}})
+    # a pool initializer with signal handling of its own (SIG_DFL, SIG_IGN,
+    # faulthandler on the soft-limit signal): the limit must still be raised
+    for k, how in enumerate(('dfl', 'faulthandler') if tier == 'quick' else
+                            ('dfl', 'faulthandler', 'ign', 'dfl')):
+        ps, js = ((1.0, None), (None, 1.0))[k % 2]
+        specs.append({'lane': 'real', 'timeout': 110, 'params': {
+            'nproc': 1 + k % 2, 'pool_soft': ps, 'job_soft': js, 'eff_soft': 1.0, 'dur': 5.6,
+            'catch': True, 'expired': True, 'pool_hard': None, 'job_hard': None,
+            'next_dur': 0.3, 'next_soft': None, 'init_signals': how}})
     # finished in time, slow result callback: the limit's instant passes while
     # the callback runs and the worker is busy with the next (unlimited) job
     for nproc in (1, 2) if tier == 'quick' else (1, 1, 2, 3):
@@ -53,7 +62,8 @@ def run_spec(spec, rec):
     rec.count('real:scenarios')
     attrs = {'lane': 'real', 'catch': p['catch'], 'expired': p['expired'], 'nproc': p['nproc'],
              'closing': bool(p.get('close_while_running')), 'slow_callback': bool(p.get('slow_cb')),
-             'pool_soft': p['pool_soft'] is not None, 'job_soft': p['job_soft'] is not None}
+             'pool_soft': p['pool_soft'] is not None, 'job_soft': p['job_soft'] is not None,
+             'initializer_touches_signals': bool(p.get('init_signals'))}
     if r['status'] != 'ok':
         rec.violation('host_process_died' if r['status'] == 'died' else 'pool_hung_with_soft_limit',
                       attrs, rc=r['rc'], stderr=r['stderr'][-3000:], params=p)
